@@ -22,6 +22,7 @@ from pprint import pformat
 # replacing that function with our beartype-specific variant in the
 # "beartype.claw._importlib._clawimpfileloader" submodule.
 from importlib.util import cache_from_source as cache_from_source_original
+from threading import local
 
 # ....................{ SUBCLASSES                         }....................
 class ModuleNameToBeartypeConf(dict[str, 'BeartypeConf']):
@@ -198,6 +199,21 @@ class ModuleNameToBeartypeConf(dict[str, 'BeartypeConf']):
                 f'hooked modules include:\n\t{pformat(self)}'
             ) from exception
 
+# ....................{ GLOBALS                            }....................
+cache_from_source_thread_local = local()
+'''
+**Thread-local state** of the :func:`.cache_from_source_beartype` monkey-patch.
+
+The ``optimization_marker`` attribute of this object is the beartype-specific
+optimization marker to be applied by that monkey-patch in the current thread if
+this thread is currently compiling a module hooked by :mod:`beartype.claw` *or*
+is either undefined or :data:`None` otherwise. Since the
+:func:`importlib._bootstrap_external.cache_from_source` function monkey-patched
+by our loader is a process-wide global but modules are importable from multiple
+threads concurrently, whether or not that monkey-patch applies this marker
+*must* be decided on a thread-by-thread basis.
+'''
+
 # ....................{ CACHERS                            }....................
 #FIXME: Unit test us up, please.
 def cache_from_source_beartype(*args, **kwargs) -> str:
@@ -214,8 +230,19 @@ def cache_from_source_beartype(*args, **kwargs) -> str:
     function call.
     '''
 
-    # Avoid circular import dependencies.
-    from beartype._data.claw.dataclawmagic import OPTIMIZATION_MARKER_BEARTYPE
+    # Beartype-specific optimization marker to be applied if the current thread
+    # is currently compiling a module hooked by "beartype.claw" *OR* "None"
+    # otherwise (e.g., if another thread concurrently importing a hooked module
+    # installed this monkey-patch while the current thread is importing an
+    # unrelated unhooked module).
+    optimization_marker_beartype = getattr(
+        cache_from_source_thread_local, 'optimization_marker', None)
+
+    # If the current thread is *NOT* compiling a hooked module, defer to the
+    # implementation of the original cache_from_source() function as is.
+    if optimization_marker_beartype is None:
+        return cache_from_source_original(*args, **kwargs)
+    # Else, the current thread is compiling a hooked module.
 
     # Original optimization parameter passed to this function call if any *OR*
     # the empty string otherwise.
@@ -224,7 +251,7 @@ def cache_from_source_beartype(*args, **kwargs) -> str:
     # New optimization parameter applied by this monkey-patch of that function,
     # uniquifying that parameter with a beartype-specific suffix.
     kwargs['optimization'] = (
-        f'{optimization_marker_nonbeartype}{OPTIMIZATION_MARKER_BEARTYPE}')
+        f'{optimization_marker_nonbeartype}{optimization_marker_beartype}')
 
     # Defer to the implementation of the original cache_from_source() function.
     return cache_from_source_original(*args, **kwargs)
